@@ -40,12 +40,25 @@ func c15Profiles(tier string) []Profile {
 						Letter{"DescEx(stop0)", func(w *harness.World) { w.Visit("x", harness.APIDescendEx, bs("zz"), false, 0) }},
 						Letter{"Iter(stop0)", func(w *harness.World) { w.Visit("x", harness.APIIterAscend, []byte{}, true, 0) }},
 						Letter{"Len", func(w *harness.World) { w.LenOp("x") }},
+						Letter{"KeyVisit{GetItem(b,v)}", func(w *harness.World) {
+							w.VisitNestedMode("x", "GetItem(b,v)", false, 0, func() { w.GetItem("x", kB, true) })
+						}},
+						Letter{"KeyVisit{Evict}", func(w *harness.World) {
+							w.VisitNestedMode("x", "Evict", false, 0, func() { w.Evict("x") })
+						}},
+						Letter{"CopyTo(1)", func(w *harness.World) { w.CopyTo(-1, 1) }},
 						Letter{"BlockEx", func(w *harness.World) { w.BlockVisit("x", true) }},
 						Letter{"Random", func(w *harness.World) { w.RandomVisit("x") }},
 						Letter{"RemoveColl(x)", func(w *harness.World) { w.RemoveCollection("x") }})
 				}
 				ls = append(ls,
 					Letter{"SetColl(x)", func(w *harness.World) { w.SetCollection("x", "nil") }},
+					Letter{"Set(w.a)", func(w *harness.World) {
+						if _, ok := w.Colls["w"]; !ok {
+							w.SetCollection("w", "nil")
+						}
+						w.SetItem("w", kA, 1, bs("wa"))
+					}},
 					Letter{"Flush", func(w *harness.World) { w.Flush() }},
 					Letter{"Reopen", func(w *harness.World) { w.Reopen(true); ensureX(w) }})
 			}
@@ -68,7 +81,7 @@ func c15Profiles(tier string) []Profile {
 			w.CheckRefLive()
 			w.CloseAllAndCheckRefs(true)
 		}}
-	return []Profile{conc.Profile(2), p.Profile(fmt.Sprintf("every history of length <= %d over Set/Delete/Evict, GetItem (both value modes), Exist, MinItem, ascending visit, descending Ex visit with early stop, iterator with early close, Len, block and random visits, RemoveCollection, SetCollection (new/existing), Flush, Reopen, Snapshot / read / close of a snapshot, then closing snapshots and store in both orders; counting ItemAlloc/ItemAddRef/ItemDecRef callbacks: no count below zero, every item handed to a visitor or the caller and every cached item reachable from an open handle has a positive count, and after closing everything all counts are zero; an item whose count reaches zero is scrubbed (key and value overwritten) and any later reference to it is reported, so a use after release shows as a wrong result", d))}
+	return []Profile{conc.Profile(2), p.Profile(fmt.Sprintf("every history of length <= %d over Set/Delete/Evict, GetItem (both value modes), Exist, MinItem, ascending visit, descending Ex visit with early stop, iterator with early close, key-only visits whose callback looks up another key with its value or evicts, CopyTo (two collections), Len, block and random visits, RemoveCollection, SetCollection (new/existing), Flush, Reopen, Snapshot / read / close of a snapshot, then closing snapshots and store in both orders; counting ItemAlloc/ItemAddRef/ItemDecRef callbacks: no count below zero, every item handed to a visitor or the caller and every cached item reachable from an open handle has a positive count, and after closing everything all counts are zero; an item whose count reaches zero is scrubbed (key and value overwritten) and any later reference to it is reported, so a use after release shows as a wrong result", d))}
 }
 
 func init() {
